@@ -3,8 +3,10 @@
    the real test database (its abstract chain is Coq data regenerated from
    <repo>/test_data on every run: Generated/ImmutableTestChain.v) or a literal
    abstract database (chunk name, blocks (slot, hash, number)) that the harness
-   built on disk from real blocks.  Block lists are compared through (count,
-   polynomial hash over slots and hashes). *)
+   built on disk from real blocks (there hashes are renumbered injectively by the
+   harness: the model only tests hashes for equality and emptiness).  Block lists
+   are compared through (count, polynomial hash over slots and the low 60 bits of
+   the hashes). *)
 From PV Require Import Lib.Base Immutable.ChunkList C42.Model Generated.ImmutableTestChain.
 Open Scope Z_scope.
 
@@ -23,9 +25,10 @@ Definition src_db (s : dbsrc) : db :=
   | LitDb d => d
   end.
 
-Definition MODULUS : Z := 2305843009213693951.
-Definition mix (h v : Z) : Z := (h * 1000003 + v) mod MODULUS.
-Definition block_hash (h : Z) (b : block) : Z := mix (mix h (bslot b)) (bhash b mod MODULUS).
+Definition MASK61 : Z := 2305843009213693951.   (* 2^61 - 1 *)
+Definition mix (h v : Z) : Z := Z.land (h * 1000003 + v) MASK61.
+Definition LOW60 : Z := 1152921504606846975.
+Definition block_hash (h : Z) (b : block) : Z := mix (mix h (bslot b)) (Z.land (bhash b) LOW60).
 Definition summarize (l : list block) : answer := ABlocks (Z.of_nat (length l)) (fold_left block_hash l 7).
 
 Definition run_query (d : db) (q : query) : answer :=
